@@ -23,12 +23,15 @@ Configured(sc, dial, call) == {x \in {sc, Slot(dial, call)} : x # 0}
 EffStmt(sc, dial, call, def) ==
   IF Configured(sc, dial, call) = {} THEN def ELSE SetMin(Configured(sc, dial, call))
 
-\* getMaxSize(mcMax, doptMax, default); Mutant 1 = "the call option overrides the service config"
-RefEff(sc, dial, call, def) ==
+\* getMaxSize(mcMax, doptMax, default); Mutant 1 = "the call option overrides the service config",
+\* Mutant 2 = "the default is always folded into the minimum" (instead of applying only when nothing is set)
+RefEff0(sc, dial, call, def) ==
   LET opt == Slot(dial, call) IN
   IF sc = 0 /\ opt = 0 THEN def
   ELSE IF sc # 0 /\ opt # 0 THEN (IF Mutant = 1 THEN opt ELSE Min2(sc, opt))
   ELSE IF sc # 0 THEN sc ELSE opt
+RefEff(sc, dial, call, def) ==
+  IF Mutant = 2 THEN Min2(def, RefEff0(sc, dial, call, def)) ELSE RefEff0(sc, dial, call, def)
 
 SrvEff(srv, def) == IF srv = 0 THEN def ELSE srv
 
